@@ -162,4 +162,37 @@ def runSyncTreesRequest (wrapPre wrapPost : String) (toks : List String) : Strin
       | .err => "err"
       | .escape => "escape"
 
+/-- the states after every prefix of a list of operations (the state before the first included; stops at a failing one) -/
+def prefixStates {α : Type} (op : FS → α → OpR FS) : FS → List α → List FS
+  | fs, [] => [fs]
+  | fs, x :: xs => fs :: (match op fs x with
+      | .ok fs' => prefixStates op fs' xs
+      | _ => [])
+
+/-- `syncprefixes <source root> <source nodes> <dest root> <dest nodes>`: every state the destination goes through (entry
+granularity) — the objects of `C08_recovery_from_crash_in_delete_phase` / `_in_copy_phase` — each with the operation that
+comes next (`D:`/`F:`/`C:` + path below the root, or `-`) -/
+def runSyncPrefixesRequest (toks : List String) : String :=
+  match P.run (do
+      let rs ← P.str; let S ← P.fsNodes
+      let rd ← P.str; let D ← P.fsNodes
+      pure (rs, S, rd, D)) toks with
+  | none => "bad-op"
+  | some (rs, S, rd, D) =>
+    let rs := pathComps rs; let rd := pathComps rd
+    let src := srcOfFS S rs
+    -- listings in the order of the walk: a whole directory before descending (by depth, in the order the nodes are given)
+    let ls := (listBelow S rs).filterMap fun e => (sentryOf e.2).map fun x => (e.1, x)
+    let ld := listBelow D rd
+    let dels := planDel src ld
+    let cpys := planCpy (fun p => D.get (rd ++ p)) ls
+    let s1 := prefixStates (fun f x => delOp f rd x) D dels
+    let mid := s1.getLast?.getD D
+    let s2 := (prefixStates (fun f x => cpyOp f rd x) mid cpys).drop 1
+    let nexts : List String :=
+      dels.map (fun x => "D:" ++ hexOfString (String.ofList (joinSlash x.1))) ++
+      cpys.map (fun x => (match x.2 with | .file .. => "F:" | _ => "C:") ++ hexOfString (String.ofList (joinSlash x.1))) ++ ["-"]
+    let states := s1 ++ s2
+    joinWith "|" ((states.zip nexts).map fun (st, nx) => s!"next={nx} fs=[{st.render}]")
+
 end Rj
